@@ -300,10 +300,11 @@ namespace link_layer {
     template < class BufferedRadio, class ReceiveCallbacks, std::size_t MTUSize >
     void ll_l2cap_sdu_buffer< BufferedRadio, ReceiveCallbacks, MTUSize >::free_ll_l2cap_received()
     {
-        if (receive_buffer_used_)
+        // was the last returned buffer a defragmented L2CAP SDU? Otherwise, a PDU was handed out directly from the
+        // link layer buffer, which might have happend while an SDU is still incomplete.
+        if ( receive_buffer_used_ != 0 && receive_size_ == 0 )
         {
             receive_buffer_used_ = 0;
-            receive_size_ = 0;
         }
         else
         {
